@@ -323,6 +323,9 @@ func c04Configs(thorough bool) []c04Config {
 	if thorough {
 		for i := range cfgs {
 			cfgs[i].MaxDev = 3
+			if len(cfgs[i].Msgs) == 1 {
+				cfgs[i].MaxDev = 4
+			}
 		}
 		cfgs = append(cfgs,
 			c04Config{Name: "deep-1x3", Caps: all, TLS: "none", Msgs: []c04Msg{m(qp, 3)}, MaxDev: 3},
@@ -338,7 +341,7 @@ func c04Configs(thorough bool) []c04Config {
 					caps = append(caps, k)
 				}
 			}
-			cfgs = append(cfgs, c04Config{Name: fmt.Sprintf("capsubset-%02d", mask), Caps: caps, TLS: "none", DSN: "default", Msgs: []c04Msg{m(e8, 1), m(qp, 2)}, MaxDev: 2})
+			cfgs = append(cfgs, c04Config{Name: fmt.Sprintf("capsubset-%02d", mask), Caps: caps, TLS: "none", DSN: "default", Msgs: []c04Msg{m(e8, 1), m(qp, 2)}, MaxDev: 3})
 		}
 	}
 	return cfgs
